@@ -60,6 +60,9 @@ pub enum Item {
         params: Vec<String>,
         usefixtures: Vec<String>,
         indirect: Vec<String>,
+        /// the parametrize marks are written above the usefixtures mark (default: below it)
+        #[serde(default)]
+        indirect_above: bool,
     },
     /// `@pytest.mark.usefixtures(names) class Test<name>: def test_m(self, params)`
     Class {
@@ -112,6 +115,7 @@ impl Item {
             params: params.iter().map(|s| s.to_string()).collect(),
             usefixtures: vec![],
             indirect: vec![],
+            indirect_above: false,
         }
     }
 }
@@ -394,8 +398,11 @@ impl Ws {
                         params,
                         usefixtures,
                         indirect,
+                        indirect_above,
                     } => {
                         push(&mut out, "", &mut line);
+                        for pass in 0..2 {
+                        if (pass == 0) != *indirect_above {
                         if !usefixtures.is_empty() {
                             let mut s = String::from("@pytest.mark.usefixtures(");
                             for (k, n) in usefixtures.iter().enumerate() {
@@ -417,6 +424,7 @@ impl Ws {
                             s.push(')');
                             push(&mut out, &s, &mut line);
                         }
+                        } else {
                         for n in indirect {
                             // @pytest.mark.parametrize("n", [1], indirect=["n"])
                             let mut s = format!("@pytest.mark.parametrize(\"{}\", [1], indirect=[", n);
@@ -432,6 +440,8 @@ impl Ws {
                                 end: start + n.len(),
                             });
                             push(&mut out, &s, &mut line);
+                        }
+                        }
                         }
                         let mut s = format!("def test_{}(", name);
                         for (k, d) in params.iter().enumerate() {
